@@ -82,6 +82,37 @@ def sweep(configs, bound, bases=("spawned-first", "continue"), thin=1):
     return gen
 
 
+def sweep_shared(configs, bases=("spawned-first", "continue")):
+    """bounded-exhaustive at the granularity that matters for atomicity violations: every schedule with at most TWO deviations,
+    both placed right before an access to an attribute of the pool object (the state shared by consumer, sending thread and
+    replace thread), for small configurations run with traced attribute access (gran=attr)"""
+    def gen():
+        for cfg in configs:
+            for base in bases:
+                spec0 = {"kind": "dev", "base": base, "pick": "lowest", "deliver": "late", "gran": "attr", "dev": []}
+                yield dict(copy.deepcopy(cfg), sched=spec0)
+                try:
+                    r = P.run_pool_case(dict(copy.deepcopy(cfg), sched=spec0))
+                except Inconclusive:
+                    continue
+                n0 = list(r.sched.nopts)
+                for s1 in list(r.sched.shared_steps):
+                    for k1 in range(1, n0[s1 - 1]):
+                        spec1 = dict(spec0, dev=[[s1, k1]])
+                        yield dict(copy.deepcopy(cfg), sched=spec1)
+                        try:
+                            r1 = P.run_pool_case(dict(copy.deepcopy(cfg), sched=spec1))
+                        except Inconclusive:
+                            continue
+                        n1 = list(r1.sched.nopts)
+                        for s2 in r1.sched.shared_steps:
+                            if s2 <= s1:
+                                continue
+                            for k2 in range(1, n1[s2 - 1]):
+                                yield dict(copy.deepcopy(cfg), sched=dict(spec0, dev=[[s1, k1], [s2, k2]]))
+    return gen
+
+
 def explicit(case, res):
     """the replayable form of the run: same case with the schedule rewritten as base policy + recorded deviations"""
     c = copy.deepcopy(case)
